@@ -929,6 +929,36 @@ fn gen_comment_text(ch: &mut Choices, hostile: bool) -> String {
             .pick(&["é ü 日本", "a\tb", "x;y||z", "24/7", "\u{0}", "'", ", ", "a, b", "\\", "🙂", "\u{202e}abc"])
             .to_string();
     }
+    // a sixth of the comments are *composed*: 1..260 atoms of one to four bytes each (ASCII, separators of the
+    // grammar, a backslash, accents, CJK, an emoji, a combining mark), the count drawn from a ladder bracketing
+    // powers of two and the usual truncation lengths, so that a given byte offset falls inside a multi-byte
+    // character in about half of the long ones and a comment ends with any atom (S-C04-g, S-C05-j)
+    if ch.chance(if hostile { 25 } else { 16 }) {
+        const ATOMS: &[&str] = &[
+            "a", "b", "Z", "0", " ", "e", "t", ", ", ",", ";", "|", "\\", "'", ":", "/", "-", "+", "(", "[", "é", "ü", "ß", "日", "本",
+            "🙂", "e\u{301}", "\u{a0}", "–", "…", ".",
+        ];
+        const COUNTS: &[usize] = &[1, 2, 3, 4, 5, 7, 8, 9, 12, 15, 16, 17, 20, 24, 31, 32, 33, 38, 39, 40, 41, 42, 48, 63, 64, 65, 79, 80, 81, 100, 127, 128, 129, 200, 255, 256, 257];
+        let n = if ch.chance(70) { ch.pick(&COUNTS[..16]) } else { ch.pick(COUNTS) };
+        // long comments repeat a drawn motif of at most 7 atoms (few choices consumed); a motif mixing one-byte
+        // and multi-byte atoms shifts the byte offsets of what follows
+        let mut text = String::new();
+        let style = ch.draw(3);
+        let motif: Vec<&str> = (0..n.min(7))
+            .map(|i| match style {
+                1 => ch.pick(&ATOMS[..8]),
+                2 if i % 2 == 0 => ch.pick(&ATOMS[19..]),
+                _ => ch.pick(ATOMS),
+            })
+            .collect();
+        for i in 0..n {
+            text.push_str(motif[i % motif.len()]);
+        }
+        if ch.chance(15) {
+            text.push('\\');
+        }
+        return text;
+    }
     // edge whitespace is part of a comment
     ch.pick(&["c0", "c1", "c2", "by appointment", "a, b", "Z", "x", "c0", "c1", " lead", "trail ", " ", "é ü", "日本", "c0", "c2", "12–13", "a\u{a0}b", "“q”", "5 − 3"]).to_string()
 }
